@@ -328,42 +328,28 @@ def boolkey_run(t: int) -> Tuple[List[Optional[int]], List[Optional[int]], Dict[
 def namedsum_oracle(t, g1, g2, g3):
     gs = [g1, g2, g3]
     total = 0
-    runs = []
     for i in range(3):
-        if i + 1 > t:  # the line matches: the sum grows by its number
+        if t > i + 1:  # the line matches: the sum grows by its number
             total += _num(gs[i])
-        runs.append(total)
-    return (runs, total if total else 0)
+    return (total, total)
 
 
 @ob(
     "C03",
     "O7-named-onmatch-sum",
-    pre=["0 <= t <= 2"],
-    post="value_eq(_, namedsum_oracle(t, g1, g2, g3))",
-    bound="3 data lines with number 2 or 10 (symbolic choice); '@running = sum.received.onmatch(#num)' with a symbolic match "
-    "threshold (at least the last line matches): on every line the variable carries the sum of the numbers of the lines that matched so far (docs/functions/sum.md: "
-    "the running sum under the qualifier's name, growing only on matching lines), and 'received' ends with the same total",
-    outside="more than 3 data lines",
+    pre=["2 <= t <= 5"],
+    post="_ == namedsum_oracle(t, g1, g2, g3)",
+    bound="3 data lines with number 2 or 10 (symbolic choice); '@running = sum.received.onmatch(#num)' where the lines before a "
+    "symbolic threshold match (so the run may end on lines that do not match): after the run both the variable assigned from the "
+    "function and the function's own named variable hold the sum over the matching lines (docs/functions/sum.md)",
+    outside="the value read by a later component of the same line (the onmatch look-ahead evaluates it before the assignment); more than 3 data lines",
     encodes=ENC_RUN + ["csvpath/matching/functions/math/sum.py:Sum._produce_value/_apply_default_value"],
     tiers={"quick": {"timeout": 600}},
 )
-def namedsum_run(t: int, g1: bool, g2: bool, g3: bool) -> Tuple[List[float], float]:
+def namedsum_run(t: int, g1: bool, g2: bool, g3: bool) -> Tuple[float, float]:
     recs = [["num"], [str(_num(g1))], [str(_num(g2))], [str(_num(g3))]]
-    p, pr = fresh('$SYM[1*][ @running = sum.received.onmatch(#num)  push("r", @running)  gt(line_number(), @t) ]', recs)
+    p, pr = fresh('$SYM[1*][ @running = sum.received.onmatch(#num)  gt(@t, line_number()) ]', recs)
     p.variables["t"] = t
     p.fast_forward()
     v = p.variables
-    return (list(v.get("r", [])), v.get("received"))
-
-
-def value_eq(got, want) -> bool:
-    """numeric equality with None read as 0 (a sum that never grew may be unset)"""
-    gr, gt_ = got
-    wr, wt = want
-    if len(gr) != len(wr):
-        return False
-    for a, b in zip(gr, wr):
-        if (a or 0) != b:
-            return False
-    return (gt_ or 0) == wt
+    return (v.get("running"), v.get("received"))
